@@ -216,8 +216,59 @@ def do_braces(mode, res):
     res.samples.append({'mode': mode, 'brace': 'x{a|b,c}*', 'pieces_with_SPLIT': ['xa', 'b*', 'xc*']})
 
 
+REAL_TREE = ['d/', 'd/x', 'd/.h', 'f', '.h', 'l -> d', 'lf -> f', 'e/']
+REAL_NAMES = ['d', 'd/', 'f', '.h', 'l', 'l/', 'lf', 'd/x', 'd/.h', 'zz', 'e', 'e/', 'l/x']
+REAL_POOL = ['*', '**', '*/', 'd/*', '**/x', '.*', '[!a]*', '@(d|f)', '**/']
+REAL_EXCL = ['*/', 'd/*', '**/', '.h', '@(d|e)/', 'l*', '**/x']
+
+
+def do_realpath(res):
+    """The same decomposition law through the REALPATH matching path (_Match._match_real): a name matches the list iff
+    some inclusion matches it and no exclusion does, each evaluated as a single-pattern REALPATH match."""
+    from .. import fsx
+    sc = fsx.Scratch()
+    try:
+        sc.load(fsx.from_desc(REAL_TREE))
+        root = sc.root
+        for fs in ('GE', 'GDE', 'GEO'):
+            fl = flags_of('glob', fs) | G.REALPATH
+            single = {}
+            for p in REAL_POOL:
+                single[p] = [G.globmatch(n, p, flags=fl, root_dir=root) for n in REAL_NAMES]
+            esingle = {}
+            for e in REAL_EXCL:
+                esingle[e] = [G.globmatch(n, e, flags=(fl | G.DOTGLOB) & ~G.NODIR, root_dir=root) for n in REAL_NAMES]
+            for ni in (1, 2):
+                for inc in itertools.product(REAL_POOL, repeat=ni):
+                    for ne in (1, 2):
+                        for exs in itertools.combinations(REAL_EXCL, ne):
+                            want = [any(single[p][i] for p in inc) and not any(esingle[e][i] for e in exs) for i in range(len(REAL_NAMES))]
+                            for how, pats, ex, f2 in (('exclude=', list(inc), list(exs), fl),
+                                                      ('inline', list(inc) + ['!' + e for e in exs], None, fl | G.NEGATE),
+                                                      ('inline-first', ['!' + e for e in exs] + list(inc), None, fl | G.NEGATE)):
+                                res.n['evaluations'] += 1
+                                res.n['distinct_nontrivial'] += 1
+                                got = [G.globmatch(n, pats, flags=f2, exclude=ex, root_dir=root) for n in REAL_NAMES]
+                                m = G.compile(pats, flags=f2, exclude=ex)
+                                got2 = [m.match(n, root_dir=root) for n in REAL_NAMES]
+                                kept = G.globfilter(REAL_NAMES, pats, flags=f2, exclude=ex, root_dir=root)
+                                got3 = [n in kept for n in REAL_NAMES]
+                                res.n['traces_validated_against_impl'] += 3 * len(REAL_NAMES)
+                                if not (got == got2 == got3 == want):
+                                    i = [j for j in range(len(want)) if not (got[j] == got2[j] == got3[j] == want[j])][0]
+                                    res.outcomes.add('realpath:differ')
+                                    res.add_violation(ID, run.viol('realpath-decomposition', {'tree': REAL_TREE, 'inclusions': list(inc),
+                                                      'exclusions': list(exs), 'flags': fs, 'how': how, 'name': REAL_NAMES[i]},
+                                                      {'match': want[i]}, {'globmatch': got[i], 'compiled': got2[i], 'globfilter': got3[i]}))
+                                else:
+                                    res.outcomes.add('realpath:equal')
+        res.samples.append({'tree': REAL_TREE, 'inclusions': ['*'], 'exclusions': ['*/'], 'name': 'd'})
+    finally:
+        sc.close()
+
+
 def plan(tier, seed):
-    chunks = []
+    chunks = [('realpath',)]
     if tier == 'quick':
         mi, me = 2, 1
     else:
@@ -245,7 +296,9 @@ def plan(tier, seed):
 
 def run_chunk(chunk):
     res = run.ChunkResult()
-    if chunk[0] == 'lists':
+    if chunk[0] == 'realpath':
+        do_realpath(res)
+    elif chunk[0] == 'lists':
         _k, mode, mi, me, sh, ns = chunk
         do_lists(mode, res, mi, me, sh, ns)
     else:
@@ -256,6 +309,29 @@ def run_chunk(chunk):
 
 def replay(v):
     inp = v['input']
+    if v['kind'] == 'realpath-decomposition':
+        from .. import fsx
+        sc = fsx.Scratch()
+        try:
+            sc.load(fsx.from_desc(inp['tree']))
+            root = sc.root
+            fl = flags_of('glob', inp['flags']) | G.REALPATH
+            n = inp['name']
+            inc, exs = inp['inclusions'], inp['exclusions']
+            want = any(G.globmatch(n, p, flags=fl, root_dir=root) for p in inc) and not any(
+                G.globmatch(n, e, flags=(fl | G.DOTGLOB) & ~G.NODIR, root_dir=root) for e in exs)
+            if inp['how'] == 'exclude=':
+                pats, ex, f2 = inc, exs, fl
+            elif inp['how'] == 'inline':
+                pats, ex, f2 = inc + ['!' + e for e in exs], None, fl | G.NEGATE
+            else:
+                pats, ex, f2 = ['!' + e for e in exs] + inc, None, fl | G.NEGATE
+            a = G.globmatch(n, pats, flags=f2, exclude=ex, root_dir=root)
+            b = G.compile(pats, flags=f2, exclude=ex).match(n, root_dir=root)
+            c = n in G.globfilter([n], pats, flags=f2, exclude=ex, root_dir=root)
+            return {'violates': not (a == b == c == want), 'observed': {'globmatch': a, 'compiled': b, 'globfilter': c}}
+        finally:
+            sc.close()
     mod = G if inp['mode'] == 'glob' else F
     fl = flags_of(inp['mode'], inp['flags'])
     if v['kind'] == 'translate-lengths':
